@@ -197,3 +197,41 @@ Print Assumptions C09_example_uniq.
 Print Assumptions C09_example_unsorted.
 Print Assumptions C09_example_sorted.
 Print Assumptions C09_example_preorder.
+
+(* ====================================================================== *)
+(* Document level (Proofs/InferProofs.v): what the internal / position order IS.            *)
+(* For documents as in C03 (one root each, same root name, no duplicate attribute), at the  *)
+(* tree node x at any path p, with os the occurrences of that path in the documents:        *)
+(* the attribute list is in order of first appearance, and the children taken in `position` *)
+(* order (what `Unsorted` renders, C09_unsorted_children / C09_by_pos_sort_spec above) are   *)
+(* in order of first appearance.                                                            *)
+(* ====================================================================== *)
+From XSG.Model Require Import Parser Dom Spec.
+From XSG.Proofs Require Import ReprDefs InferProofs.
+
+Theorem C09_first_appearance_attrs : forall docs e,
+  docs_ok docs = true -> Forall (Forall wf_node) docs -> run_dom docs = Some e ->
+  forall p x, node_at e p = Some x ->
+  map snd (eattrs (snd x)) = dedup (flat_map oattrs (occs p (doc_roots docs))).
+Proof. exact C09_first_appearance_attrs_l. Qed.
+
+Theorem C09_first_appearance_children : forall docs e,
+  docs_ok docs = true -> Forall (Forall wf_node) docs -> run_dom docs = Some e ->
+  forall p x, node_at e p = Some x ->
+  map cname (isort by_pos (echildren (snd x))) = dedup (flat_map okidnames (occs p (doc_roots docs))).
+Proof. exact C09_first_appearance_children_l. Qed.
+
+(* <r a b><x/><y>text</y><x k/></r> then <r b c><y/><z><w/></z><x/></r>: the parser's own child
+   list is y, x, z; in position order it is x, y, z = first appearance *)
+Example C09_example_first_appearance :
+  docs_ok ex_docs = true /\ Forall (Forall wf_node) ex_docs /\
+  exists e, run_dom ex_docs = Some e
+    /\ map cname (echildren e) = [s "y"; s "x"; s "z"]
+    /\ map cname (isort by_pos (echildren e)) = [s "x"; s "y"; s "z"]
+    /\ dedup (flat_map okidnames (doc_roots ex_docs)) = [s "x"; s "y"; s "z"]
+    /\ map snd (eattrs e) = [s "a"; s "b"; s "c"].
+Proof. exact ex_first_appearance. Qed.
+
+Print Assumptions C09_first_appearance_attrs.
+Print Assumptions C09_first_appearance_children.
+Print Assumptions C09_example_first_appearance.
